@@ -1149,6 +1149,22 @@ func (s *scenario) poolOps(n int) {
 			s.certifyOp(a, b, r.Intn(s.nkeys))
 		case x < 17:
 			s.gacOp()
+		case x == 17 && r.Intn(2) == 0:
+			g, ng := s.exec.VerifC06Pool().VerifC06Dump()
+			if len(g) > 11 || len(ng) > 11 {
+				continue // Select sorts: deterministic only below 12 elements
+			}
+			op := opRec{T: "bc"}
+			func() {
+				defer func() {
+					if p := recover(); p != nil {
+						op.Panic = fmt.Sprint(p)
+					}
+				}()
+				_ = s.exec.VerifC06BroadcastCertificate() // Publish fails on the never started connection
+			}()
+			s.dumpPool(&op)
+			s.rec.Ops = append(s.rec.Ops, op)
 		case x == 17:
 			keep := map[uint32]bool{}
 			op := opRec{T: "cl", Keep: []uint32{}}
